@@ -34,6 +34,8 @@ var c14Plan = []planEntry{
 	{spaces.XInfo, 4, 5},
 	{spRawAttr, 6, 7},
 	{spRawTag, 5, 6},
+	{spLinkTail, 5, 6},
+	{spDefGram, 5, 6},
 }
 
 var c14Pads = []string{"\n", "\r\n", " \n", "\t\n\n", "\r"}
